@@ -523,7 +523,7 @@ func VerifyFunc(w *World, prog *Program, fi *FuncInfo) *FuncResult {
 		}
 		sort.Slice(ls, func(i, j int) bool { return ls[i].ord < ls[j].ord })
 		for _, l := range ls {
-			if fi.Contr != nil && (fi.Contr.Has("ensures", l.ord) || fi.Contr.Has("requires", l.ord) || fi.Contr.Has("yields", l.ord) || fi.Contr.Has("nopanic", l.ord)) {
+			if fi.Contr != nil && (fi.Contr.Has("ensures", l.ord) || fi.Contr.Has("requires", l.ord) || fi.Contr.Has("yields", l.ord) || fi.Contr.Has("nopanic", l.ord) || fi.Contr.Has("noglobals", l.ord)) {
 				fv.verifyUnit(l.lit)
 			}
 		}
@@ -572,6 +572,10 @@ func (fv *FuncVerifier) prepareLoopGhostTypes() {
 				continue
 			}
 			switch u := xt.Underlying().(type) {
+			case *types.Slice:
+				fv.loopGhostTypes[fmt.Sprintf("xs%d", ord)] = xt
+			case *types.Array:
+				fv.loopGhostTypes[fmt.Sprintf("xs%d", ord)] = types.NewSlice(u.Elem())
 			case *types.Map:
 				fv.loopGhostTypes[fmt.Sprintf("ks%d", ord)] = types.NewSlice(u.Key())
 			case *types.Signature:
@@ -597,6 +601,8 @@ func (fv *FuncVerifier) verifyUnit(lit *ast.FuncLit) {
 	st := &State{vars: map[types.Object]Term{}, heap: map[string]Term{}, ghost: map[string]Term{}, hmark: map[string]int{}}
 	fv.curLit = 0
 	fv.yieldVar = nil
+	fv.globalWrites = nil
+	fv.nondet = nil
 	var ftype *ast.FuncType
 	var body *ast.BlockStmt
 	var sig *types.Signature
@@ -678,6 +684,16 @@ func (fv *FuncVerifier) verifyUnit(lit *ast.FuncLit) {
 	for _, cl := range fi.Contr.Get("requires", 0, fv.curLit) {
 		st.Assume(fv.evalClause(st, cl, pos, nil, nil))
 	}
+	if lit != nil {
+		// a literal sees the enclosing function's parameters: the function's preconditions still describe them
+		// (sound when the parameters are not reassigned before the literal runs; noted in evidence)
+		for _, cl := range fi.Contr.Get("requires", 0, 0) {
+			st.Assume(fv.evalClause(st, cl, fi.Decl.Body.Lbrace+1, nil, nil))
+		}
+		if len(fi.Contr.Get("requires", 0, 0)) > 0 {
+			fv.note("literal %d verified under the enclosing function's preconditions (captured parameters assumed not reassigned)", fv.curLit)
+		}
+	}
 	for _, cl := range fi.Contr.Get("assume", 0, fv.curLit) {
 		st.Assume(fv.evalClause(st, cl, pos, nil, nil))
 	}
@@ -758,10 +774,23 @@ func (fv *FuncVerifier) verifyUnit(lit *ast.FuncLit) {
 				}
 			}
 			retIdx++
+			fv.obls = append(fv.obls, &Obligation{Func: fi.Key, Class: "V", Kind: "exit-reachable", Site: site, Pos: fv.pos(site),
+				Assume: append([]Term(nil), s2.pc...), Goal: False, Desc: "some return path is feasible under the contract's assumptions (vacuity guard; any path suffices)", consts: fv.consts, Cover: true,
+				Name: fmt.Sprintf("%s#V.exit-reachable[lit%d]", fi.Key, fv.curLit)})
 		case okPanic:
 		default:
 			fv.note("abstracted: break/continue outside loop in %s", fi.Key)
 		}
+	}
+	if fi.Contr.Has("noglobals", fv.curLit) {
+		status := "unsat"
+		desc := "no statement of this body stores to a package-level variable"
+		if len(fv.globalWrites) > 0 {
+			status = "failed"
+			desc = "body stores to package-level state: " + strings.Join(fv.globalWrites, "; ")
+		}
+		fv.obls = append(fv.obls, &Obligation{Func: fi.Key, Class: "R", Kind: "noglobals", Site: pos, Pos: fv.pos(pos), Goal: True,
+			Desc: desc, consts: fv.consts, Name: fmt.Sprintf("%s#R.noglobals[lit%d]", fi.Key, fv.curLit), Status: status, Solver: "govc-analysis"})
 	}
 	if lit == nil && fi.Contr.Has("functional", 0) {
 		status := "unsat"
